@@ -7,6 +7,8 @@
 //	[at <ns>] window       -> <WindowSize ns>
 //	[at <ns>] clone        -> ok            (continue with c.Clone())
 //	[at <ns>] append       -> ok            (c.Append(c.Clone()))
+//	[at <ns>] snap         -> ok            (snapshot = c.Clone(), kept next to the live counter)
+//	[at <ns>] scount | sinc <v> | scounted | sreset -> as count/inc/counted/reset on the snapshot; "none" without one
 //	[at <ns>] inca|incb <v>-> ok            (ratio counter)
 //	[at <ns>] ratio        -> num/den | 0/0 (from CountA/CountB; Ratio() is cross-checked against it)
 //	[at <ns>] ready        -> true|false
@@ -25,8 +27,9 @@ import (
 )
 
 type h struct {
-	c *memmetrics.RollingCounter
-	r *memmetrics.RatioCounter
+	c    *memmetrics.RollingCounter
+	snap *memmetrics.RollingCounter
+	r    *memmetrics.RatioCounter
 }
 
 func (s *h) Op(f []string) string {
@@ -58,6 +61,27 @@ func (s *h) Op(f []string) string {
 			return "ok"
 		case f[0] == "reset" && len(f) == 1:
 			s.c.Reset()
+			return "ok"
+		case f[0] == "snap" && len(f) == 1:
+			s.snap = s.c.Clone()
+			return "ok"
+		case (f[0] == "scount" || f[0] == "scounted" || f[0] == "sreset") && len(f) == 1, f[0] == "sinc" && len(f) == 2:
+			if f[0] == "sinc" {
+				_ = hx.Atoi(f[1])
+			}
+			if s.snap == nil {
+				return "none"
+			}
+			switch f[0] {
+			case "scount":
+				return fmt.Sprint(s.snap.Count())
+			case "scounted":
+				return fmt.Sprint(s.snap.CountedBuckets())
+			case "sreset":
+				s.snap.Reset()
+			case "sinc":
+				s.snap.Inc(hx.Atoi(f[1]))
+			}
 			return "ok"
 		}
 		return "bad-op"
